@@ -129,7 +129,7 @@ theorem C03_mcentroid_anyorder (mp : MPoly) (sss : List (List Spell))
     (hv : ∀ p ∈ mp, ValidAny p = true)
     (hW : ((mp.flatMap weights).map (·.1)).sum ≠ 0)
     (mp' : MPoly) (hp : List.Forall₂ List.Perm mp' (List.zipWith respell sss mp)) :
-    multiPolygonCentroid mp' = (.fin (mcentroid mp).x, .fin (mcentroid mp).y) := by
+    multiPolygonCentroidScaled mp' = (.fin (mcentroid mp).x, .fin (mcentroid mp).y) := by
   rw [C03_mcentroid_guard]
   unfold multiPolygonCentroidCore
   rw [mpCentroidAcc_perm hp]
@@ -173,7 +173,7 @@ theorem stepP_comm (s : CAcc) (a b : Ring) : stepP (stepP s a) b = stepP (stepP 
 
 /-- **`Polygon.Centroid` does not depend on the order of the rings** — every input, the index fault on
 an empty ring included. -/
-theorem C03_centroid_order {p p' : Poly} (h : p'.Perm p) : polygonCentroid p' = polygonCentroid p := by
+theorem C03_centroid_order {p p' : Poly} (h : p'.Perm p) : polygonCentroidScaled p' = polygonCentroidScaled p := by
   rw [C03_centroid_guard, C03_centroid_guard]
   unfold polygonCentroidCore
   rw [polygonCentroidAcc_fold, polygonCentroidAcc_fold, any_perm_all h,
@@ -190,7 +190,7 @@ theorem C03_centroid_valid_anyorder (p : Poly) (ss : List Spell) (hlen : ss.leng
     (b : Bool) (hb : ∀ s ∈ ss, s.rev = b)
     (hv : ValidAny p = true) (halt : Alternating p = true)
     (hW : (p.map fun r => shoelace2 r / 2).sum ≠ 0) (p' : Poly) (hp : p'.Perm (respell ss p)) :
-    polygonCentroid p' = .ok (.fin (Spec.centroid p).x, .fin (Spec.centroid p).y) := by
+    polygonCentroidScaled p' = .ok (.fin (Spec.centroid p).x, .fin (Spec.centroid p).y) := by
   rw [C03_centroid_order hp]; exact C03_centroid_valid_touch p ss hlen b hb hv halt hW
 
 /-! non-vacuity: the hole of `exPoly` listed before its shell -/
